@@ -174,6 +174,77 @@ func main() {
 		}
 		out.Case("NConc ["+strings.Join(parts, "; ")+"]", map[string]interface{}{"goroutines": G, "sends_each": M}, "concurrent-send", true)
 		rc.Close()
+		// concurrent senders, on the wire: every request is quoted back by the kernel, so the datagram that carries the payload of
+		// goroutine g's i-th Send must carry the sequence number that Send returned (and nothing of another caller's message)
+		for round := 0; round < 6; round++ {
+			wc, err := libaudit.NewNetlinkClient(syscall.NETLINK_ROUTE, 0, make([]byte, 65536), nil)
+			if err != nil {
+				break
+			}
+			wport := uint32(0)
+			if sa, err := syscall.Getsockname(fdOf(wc)); err == nil {
+				wport = sa.(*syscall.SockaddrNetlink).Pid
+			}
+			const WG, WM = 8, 10
+			ret := make([][]uint32, WG)
+			typ := make([][]uint16, WG)
+			var wwg sync.WaitGroup
+			gate := make(chan struct{})
+			for g := 0; g < WG; g++ {
+				ret[g] = make([]uint32, WM)
+				typ[g] = make([]uint16, WM)
+				wwg.Add(1)
+				go func(g int) {
+					defer wwg.Done()
+					<-gate
+					for i := 0; i < WM; i++ {
+						p := make([]byte, 8+4*g) // lengths differ per goroutine: a torn datagram shows in the length as well
+						binary.LittleEndian.PutUint32(p[0:], uint32(g))
+						binary.LittleEndian.PutUint32(p[4:], uint32(i))
+						ty := uint16(16 + 4*(200+g) + 2)
+						typ[g][i] = ty
+						sq, _ := wc.Send(syscall.NetlinkMessage{Header: syscall.NlMsghdr{Type: ty, Flags: syscall.NLM_F_REQUEST}, Data: p})
+						ret[g][i] = sq
+					}
+				}(g)
+			}
+			close(gate)
+			wwg.Wait()
+			got, overflow := 0, false
+			for got < WG*WM {
+				msgs, err := wc.Receive(true, syscall.ParseNetlinkMessage)
+				if err != nil {
+					if err == syscall.ENOBUFS {
+						overflow = true
+					}
+					break
+				}
+				for _, m := range msgs {
+					if m.Header.Type != syscall.NLMSG_ERROR || len(m.Data) < 20+8 {
+						continue
+					}
+					got++
+					echo := m.Data[4:]
+					g, i := int(binary.LittleEndian.Uint32(echo[16:])), int(binary.LittleEndian.Uint32(echo[20:]))
+					want, ty, pl := uint32(0), uint16(0), 8
+					if g >= 0 && g < WG && i >= 0 && i < WM {
+						want, ty, pl = ret[g][i], typ[g][i], 8+4*g
+					}
+					p := make([]byte, pl)
+					binary.LittleEndian.PutUint32(p[0:], uint32(g))
+					binary.LittleEndian.PutUint32(p[4:], uint32(i))
+					if len(echo) > 16+pl {
+						echo = echo[:16+pl]
+					}
+					out.Case(fmt.Sprintf("NEcho %d %d %d %d %s %d %s", wport, ty, syscall.NLM_F_REQUEST, 0, sx.Hx(p), want, sx.Hx(echo)),
+						map[string]interface{}{"concurrent_wire": true, "goroutine": g, "index": i, "returned_seq": want}, "concurrent-wire-echo", true)
+				}
+			}
+			if got < WG*WM && !overflow {
+				out.Case("NKernel true 0", map[string]interface{}{"concurrent_wire": true, "sent": WG * WM, "quoted_back": got}, "concurrent-wire-lost", true)
+			}
+			wc.Close()
+		}
 	}
 	// (d) a non-kernel sender: NETLINK_USERSOCK, unicast from a second socket
 	uc, err := libaudit.NewNetlinkClient(syscall.NETLINK_USERSOCK, 0, make([]byte, 65536), nil)
